@@ -224,6 +224,20 @@ CLAIMED['C07'] = ('other',
     'abstract interpretation (accept envelope) + normal-form comparison against a transcribed table',
     'DESIGN.md section C07 and appendix A')
 
+CLAIMED['C08'] = ('other',
+    'Decided part, for the 19 conversions the property names (specs/conversions.json, written from the property and the module '
+    'documentation): each conversion is interpreted abstractly on every accepted shape of its source format, in compact form and as '
+    'printed by the source\'s format(); (1) no partial operation fails with a foreign exception; (2) the compact result has the length, '
+    'literal prefix and position classes of the target; (3) the result embeds the cells of the source number, each once and in the order '
+    'the relation prescribes (provenance of cells, not values); (4) new check characters are cells produced by the target format\'s own '
+    'generator applied to the payload they are attached to; (5) the target validate() has an accepting path on the result; (6) the raw '
+    'argument is read only through compact()/validate() before any length- or position-dependent operation; (7) for ISAN the option '
+    'relations of validate() (add / strip check characters) give only the allowed lengths. Inverse round trips as value equality '
+    '(to_x(from_x(n)) == n), AIC base-32, MEID hex/decimal and German tax number re-encodings are not decided.',
+    'Trusted: specs/conversions.json; sa/strabs models; C06 for the generic generators. Known finding: cusip.to_isin on CUSIPs with *, @, #.',
+    'abstract interpretation with positional provenance (source cells / generated cells / literals) + raw-argument information flow',
+    'DESIGN.md section C08')
+
 NOT_APPLICABLE = {
 }
 
